@@ -72,7 +72,6 @@ def _x_parts(ex, args, kwargs, lineno):
 def _x_suffix(ex, args, kwargs, lineno):
     """p.suffix is a function of p.name only."""
     p = args[0].t
-    _name_facts(ex, p)
     ex.ufs_used.add("pathlib: suffix == name_suffix(name)")
     return VStr(_nsuf(_name(p)))
 
